@@ -728,6 +728,7 @@ func (w *World) ruleRefKeyPins(r *Report, rule string) {
 // ---- C05 ----
 
 func rulesC05(w *World, r *Report) {
+	w.ruleSizeTables(r, "C05.R8 a size-by-first-octet table agrees with the grammar")
 	w.ruleCountedTraversals(r, "C05.R6 every field of a class is named, written, looked up and read", 3, nil)
 	ro := w.fn("(*Decoder).readObject")
 	if ro == nil {
